@@ -1,6 +1,9 @@
 (* solve_unique: what the exact model of the solvers guarantees for the assembled systems
-   (instances of the C19 theorems lu_solves / ls_solve_normal / ls_consistent_exact, which
-   Properties_C19.v exports as c19_lu_solves, c19_ls_solve_normal, c19_ls_consistent_exact):
+   (instances of the lemmas lu_solves / lu_kernel_trivial (Lin/LuProofs.v) and ls_solve_normal /
+   ls_consistent_exact (Lin/LsProofs.v) of property C19; Properties_C19.v exports the conditional form
+   used here as c19_lu_solves_if_pivots_nonzero -- its c19_lu_solves is stated from a hypothesis on the
+   input matrix -- and the two least-squares lemmas as c19_ls_gj_oracle_sound_by_construction and
+   c19_ls_consistent_exact_spec_level):
    square case - when every pivot met is non-zero the LU solution solves the system, and the system has
    no other solution (trivial kernel); tall case - the normal-equation (least-squares) solution of a
    CONSISTENT system (one that some x0 solves exactly, e.g. the true error terms) solves it exactly. *)
